@@ -1087,7 +1087,9 @@ def parse_and_group(src_paths, group_by=default_group_keys, extractor=None,
                 for c_idx, c_val in enumerate(c_list):
                     if not (
                         (c_val is None and close_list[c_idx] is None) or
-                        np.allclose(c_val, close_list[c_idx], atol=5e-5)
+                        (c_val is not None and
+                         close_list[c_idx] is not None and
+                         np.allclose(c_val, close_list[c_idx], atol=5e-5))
                     ):
                         break
                 else:
@@ -1114,7 +1116,11 @@ def parse_and_group(src_paths, group_by=default_group_keys, extractor=None,
             full_key = tuple(full_key)
             full_results[full_key] = sub_res
 
-    return OrderedDict(sorted(full_results.items()))
+    #Missing (None) values can't be compared to other values, sort them last
+    def sort_key(item):
+        return tuple((elem is None, elem) for elem in item[0])
+
+    return OrderedDict(sorted(full_results.items(), key=sort_key))
 
 
 def stack_group(group, warn_on_except=False, **stack_args):
